@@ -60,6 +60,23 @@ def enc_text(r, cps):
     return 16, "".join("%04x" % x for x in u) or "-"
 
 
+def kern_font(r, tmp, K, advy):
+    """small.ttf with a Silf whose collision flag is set, Glat version 3 (octaboxes), glyph b = COLL_FIX|COLL_KERN with margin 10, an optional
+    substitution pass c -> (1+K) x c and a positioning pass (one shift loop, kerning) that sets advance.y of every c"""
+    import grfont as G
+    ACOL = 2
+    gattrs = {4: {ACOL: 1 | 16, ACOL + 1: -1000, ACOL + 2: -1000, ACOL + 3: 1000, ACOL + 4: 1000, ACOL + 5: r.choice([10, 10, 0, 100]), ACOL + 6: 1}}
+    passes = []
+    if K:
+        passes.append(G.Pass([G.Rule(1, 0, action=G.code([G.INSERT, G.PUT_GLYPH, 0, 0, G.NEXT] * K, G.NEXT, G.RET_ZERO))], ranges=[(5, 5, 0)]))
+    passes.append(G.Pass([G.Rule(1, 0, action=G.code(G.PUSH_SHORT, (advy >> 8) & 255, advy & 255, G.ATTR_SET, G.SL['AdvY'], G.NEXT, G.RET_ZERO))],
+                         ranges=[(5, 5, 0)], flags=1 | (1 << 3)))
+    s = G.Silf(passes, nglyphs=8, classes=[[5]], ipos=len(passes) - 1, ijust=len(passes), flags=0x20, acoll=ACOL)
+    out = tmp / "kern-src.ttf"
+    G.make_font(str(lib.REPO / "tests" / "fonts" / "small.ttf"), str(out), s, nattrs=32, gattrs=gattrs, glat_version=3, charmap={0x61: 3, 0x62: 4, 0x63: 5})
+    return out.read_bytes()
+
+
 def run(ctx):
     res = lib.Result()
     q = ctx.quick()
@@ -128,6 +145,16 @@ def run(ctx):
                 hx = "".join("%08x" % c for c in cps)
                 lines.append("F0=%d,0,f;S0=0,-1,-1,0,32,0,-1,%s;R0;D0;d0;X0;L0" % (fi, hx))
                 meta.append(("loop", "shape %s text=%s" % (desc["model"], hx)))
+        # (c4) collision kerning against a segment of any height: a positioning pass with kerning whose rule gives every `c` an advance.y of
+        # up to 32767 units, optionally after a substitution pass that grows each `c` into up to 63 slots (inside the 64x limit), and a glyph
+        # `b` with COLL_FIX|COLL_KERN: KernCollider::initSlot sizes its slice array from the y-extent of the whole segment
+        for k in range(6 if q else 60):
+            data = kern_font(r, tmp, K=62 if k == 0 else r.choice([0, 0, 5, 62]), advy=32767 if k == 0 else r.choice([32767, 20000, -32768, 1000, 0]))
+            fi = add_font(data)
+            for n in ([4800, 12] if k == 0 else [r.choice([3, 12, 100, 400])]):
+                cps = [0x63] * n + [0x62, 0x63]
+                lines.append("F0=%d,0,f;N0=0,20;S0=0,0,-1,0,32,0,-1,%s;R0;L0" % (fi, "".join("%08x" % c for c in cps)))
+                meta.append(("kern", None))
         # (d) boundary fonts: an operand one past the end of its table; the loader must refuse, otherwise shaping must still be safe
         for _ in range(40 if q else 1000):
             data, desc = fontsynth.gen_boundary_font(r)
